@@ -114,7 +114,7 @@ def _val_in_env(value, env, zero):
     return v.value if hasattr(v, "value") else v
 
 
-def rate_law(system, st, X, with_chemostats=True):
+def rate_law(system, st, X, with_chemostats=True, grid_vol=None):
     """dict (s, i) -> z3 term of d x_{s,i}/dt under the documented law; X(s,i) gives the state term.
     Rate constants / diffusion coefficients / surfaces / distances are looked up in st by tag value.
     Flagged entries get 0 when with_chemostats."""
@@ -130,7 +130,7 @@ def rate_law(system, st, X, with_chemostats=True):
     out = {}
     for i in range(nc):
         e = envs[cell_env[i]]
-        V = z3.Q(Fraction(vols[i]).numerator, Fraction(vols[i]).denominator)
+        V = z3.Q(Fraction(vols[i]).numerator, Fraction(vols[i]).denominator) if grid_vol is None else grid_vol[0]
         reac = [z3.RealVal(0)] * ns
         for r in net.reactions:
             kf = st.term(_val_in_env(r.kf, e, 0), "k")
@@ -155,15 +155,19 @@ def rate_law(system, st, X, with_chemostats=True):
             Di = st.term(_val_in_env(sp.D, e, 0), "D")
             for (j, sfc, dst, Vi, Vj, _slot) in cont[i]:
                 Dj = st.term(_val_in_env(sp.D, envs[cell_env[j]], 0), "D")
-                hi, hj = _cbrt_exact(Vi), _cbrt_exact(Vj)
-                hiz, hjz = z3.Q(hi.numerator, hi.denominator), z3.Q(hj.numerator, hj.denominator)
+                if grid_vol is not None:
+                    hiz = hjz = grid_vol[1]
+                    Viz = Vjz = grid_vol[0]
+                else:
+                    hi, hj = _cbrt_exact(Vi), _cbrt_exact(Vj)
+                    hiz, hjz = z3.Q(hi.numerator, hi.denominator), z3.Q(hj.numerator, hj.denominator)
+                    Viz = z3.Q(Fraction(Vi).numerator, Fraction(Vi).denominator)
+                    Vjz = z3.Q(Fraction(Vj).numerator, Fraction(Vj).denominator)
                 if sfc is None:
                     S, dist = hiz * hiz, hiz
                 else:
                     S, dist = st.term(sfc, "sfc"), st.term(dst, "dst")
                 Dij = z3.If(z3.And(Di != 0, Dj != 0), (hiz + hjz) / (hiz / Di + hjz / Dj), z3.RealVal(0))
-                Viz = z3.Q(Fraction(Vi).numerator, Fraction(Vi).denominator)
-                Vjz = z3.Q(Fraction(Vj).numerator, Fraction(Vj).denominator)
                 kij = Dij * S / (dist * Viz)
                 kji = Dij * S / (dist * Vjz)
                 d = d + kji * X(s, j) - kij * X(s, i)
